@@ -45,6 +45,15 @@ main(int argc, char** argv)
       wb(ring, NULL);
       continue;
     }
+    if (!strcmp(tok[0], "newbad") && n == 2) {
+      // a size the ring cannot represent (0, or above 2^31): must be refused; the current ring is not touched
+      const unsigned long s = strtoul(tok[1], NULL, 10);
+      if (s > 4294967295UL) { puts("bad-op"); continue; }
+      ZixRing* const r = zix_ring_new(&va.base, (uint32_t)s);
+      if (r) { printf("new=RING cap=%u\n", zix_ring_capacity(r)); zix_ring_free(r); }
+      else puts("new=NULL");
+      continue;
+    }
     if (!ring) {
       puts("bad-op");
       continue;
